@@ -490,6 +490,13 @@ def run(tier, seed):
                                 return None
                             return "p%d" % dx.index if dx.is_param else ("v%d" % dx.id if dx.op in ("phi", "load", "call", "select") else None)
                         la = linform(g, arg, atom)
+                        if la is None:
+                            # (uint8_t) (a - b - c) with a an 8-bit quantity and b, c non-negative: once a fact shows the difference not to be
+                            # negative it lies in [0, a] and the narrowing changes nothing
+                            from ..lin import narrowed_difference
+                            nd = narrowed_difference(g, arg)
+                            if nd is not None:
+                                la = linform(g, nd, atom)
                         if la is not None:
                             for f in Fg.at_block(c.block.id):
                                 if f[0] in ("ugt", "uge") and not is_const(f[1]):
@@ -504,7 +511,7 @@ def run(tier, seed):
             fn = mod.fn(fname)
             if fn is None:
                 continue            # folded into its caller by a refactoring: its reads are then the caller's (raw-data accesses, A-rawdata)
-            if len(fn.params) <= max(pi, li_) or fn.params[pi].ty != "i8*" or (mod.int_bits(fn.params[li_].ty) or 0) < 32:
+            if len(fn.params) <= max(pi, li_) or fn.params[pi].ty != "i8*" or (mod.int_bits(fn.params[li_].ty) or 0) < 8:
                 continue            # no longer a (byte pointer, length) window: its reads are raw-data accesses of whatever it receives (A-rawdata)
             F, M = ctx.facts(fn), Matcher(fn)
             P, L = fn.params[pi], fn.params[li_]
